@@ -845,7 +845,10 @@ pub fn compute(file: &File, r: &Rendered) -> Out {
                     let exact = parse_version(v).is_some() && (v.chars().next().map(|c| c.is_ascii_digit()).unwrap_or(false) || v.starts_with('='));
                     if v.starts_with('^') {
                         w.must("floating_pragma", &[tok], "^version", "pragma");
-                    } else if exact && !v.contains('^') {
+                    } else if v.contains('^') {
+                        // a caret range anywhere in the value is still a caret-ranged pragma
+                        w.must("floating_pragma", &[tok], "caret-range-not-first", "pragma");
+                    } else if exact {
                         w.not("floating_pragma", tok, "pinned", "pragma");
                     } else {
                         w.dc("floating_pragma", &[tok], "range-or-other", "pragma");
